@@ -7,7 +7,7 @@ import concurrent.futures as cf, glob, json, os, re, subprocess, sys
 V = os.path.dirname(os.path.abspath(__file__))
 ALL = sorted(os.path.basename(d.rstrip('/')) for d in glob.glob(V + '/seeded/*/') if os.path.exists(d + 'patch.diff'))
 SEEDS = [s for s in ALL if s in sys.argv[2:]] if len(sys.argv) > 2 and sys.argv[1] != 'meta' else ALL   # optional: only these seeds
-ALSO = {'C01-A': ['C09'], 'C18-A': ['C16'], 'r2-C15-A': ['C16'], 'r2-C01-B': ['C09'], 'r2-C18-B': ['C16']}
+ALSO = {'C01-A': ['C09'], 'C18-A': ['C16'], 'r2-C15-A': ['C16'], 'r2-C01-B': ['C09'], 'r2-C18-B': ['C16'], 'r3-C18-A': ['C16']}
 LOG = V + '/.work/seedall'
 os.makedirs(LOG, exist_ok=True)
 
@@ -63,12 +63,15 @@ elif sys.argv[1] == 'meta':
         notes = open(d + '/notes.md').read() if os.path.exists(d + '/notes.md') else ''
         files = sorted(set(re.findall(r'^\+\+\+ b/(\S+)', open(d + '/patch.diff').read(), re.M)))
         meta = {
-            'id': s, 'property': prop(s), 'round': 2 if s.startswith('r2-') else 1, 'files_changed': files,
+            'id': s, 'property': prop(s), 'round': 3 if s.startswith('r3-') else 2 if s.startswith('r2-') else 1, 'files_changed': files,
             'what_it_needs_to_manifest': old.get('what_it_needs_to_manifest') or next((l.strip('# ').strip() for l in notes.splitlines() if l.strip()), ''),
             'demonstration': 'demo.py: PYTHONPATH=<tree>/src exabgp_log_enable=false /venv/bin/python demo.py exits 0 on the unchanged tree and 1 on the changed one',
             'confirmed': {'on': 'current /repo HEAD in a scratch git worktree (seedcheck.sh)', 'patch_applies': bool(m and m.group(1) == 'ok'),
                           'demo_rc_clean': int(m.group(2)) if m else None, 'demo_rc_changed': int(m.group(3)) if m else None,
-                          'test_suite_on_changed_tree': m.group(5) if m else conf[:200]},
+                          'test_suite_on_changed_tree': m.group(5) if m else conf[:200],
+                          **({'test_util_py_alone_on_changed_tree': open(f'{LOG}/util-{s}.txt').read().strip(),
+                              'note': 'the extra failure(s) of the parallel run are tests/unit/test_util.py::TestDNS, which depend on test order under pytest-xdist; the file passes alone on the changed tree (.work/util_alone.sh)'}
+                             if os.path.exists(f'{LOG}/util-{s}.txt') else {})},
             'origin': old.get('origin', 'produced by a sub-agent given only the property text and a scratch worktree'),
             'caught_by': [{'check': r['check'], 'tier': 'quick', 'detected': r['rc'] == 1, 'clauses': sorted(r['classes'])} for r in det],
         }
